@@ -267,6 +267,9 @@ def choice_axes_info(ret):
 
     Returns dict(axes=term, choice=term, offset=int) or raises.
     """
+    from lcmsa.alg import deindex
+
+    ret = deindex(ret)  # `for i in range(len(AXES)) if AXES[i] in CHOICE` is the same iteration
     for s in walk(ret):
         if s[0] != "comp" or s[1] not in ("list", "gen", "set") or len(s[3]) != 1:
             continue
